@@ -1,4 +1,4 @@
-use crate::analyzer_error::AnalyzerError;
+use crate::analyzer_error::{AnalyzerError, ExceedLimitKind};
 use crate::conv::utils::{
     TypePosition, case_condition, eval_expr, eval_factor_path, eval_function_call, eval_size,
     eval_struct_constructor, eval_type, range_list, switch_condition,
@@ -27,6 +27,7 @@ fn is_if_expression(value: &Expression) -> bool {
 
 impl Conv<&IfExpression> for ir::Expression {
     fn conv(context: &mut Context, value: &IfExpression) -> IrResult<Self> {
+        check_expression_chain(context, value.if_expression_list.len(), value.into())?;
         let mut ret: ir::Expression = Conv::conv(context, value.expression01.as_ref())?;
         for x in value.if_expression_list.iter().rev() {
             let y: ir::Expression = Conv::conv(context, x.expression.as_ref())?;
@@ -152,11 +153,29 @@ fn prec_climb(
     ))
 }
 
+/// An N-operand chain becomes an N-deep IR tree, and every later walk
+/// (clone, gather_context, eval, drop) recurses over it: bound N the way the
+/// parser bounds nesting instead of overflowing the stack.
+const MAX_EXPRESSION_CHAIN: usize = 2048;
+
+fn check_expression_chain(context: &mut Context, len: usize, token: TokenRange) -> IrResult<()> {
+    if len > MAX_EXPRESSION_CHAIN {
+        context.insert_error(AnalyzerError::exceed_limit(
+            ExceedLimitKind::EvaluateSize,
+            len,
+            &token,
+        ));
+        return Err(ir_error!(token));
+    }
+    Ok(())
+}
+
 impl Conv<&Expression01> for ir::Expression {
     fn conv(context: &mut Context, value: &Expression01) -> IrResult<Self> {
         if value.expression01_list.is_empty() {
             return Conv::conv(context, value.expression02.as_ref());
         }
+        check_expression_chain(context, value.expression01_list.len(), value.into())?;
 
         let mut exprs: Vec<&Expression02> = vec![value.expression02.as_ref()];
         let mut ops: Vec<(Op, u32)> = Vec::new();
@@ -173,6 +192,7 @@ impl Conv<&Expression01> for ir::Expression {
 
 impl Conv<&Expression02> for ir::Expression {
     fn conv(context: &mut Context, value: &Expression02) -> IrResult<Self> {
+        check_expression_chain(context, value.expression02_list.len(), value.into())?;
         let mut ret: ir::Expression = Conv::conv(context, value.factor.as_ref())?;
 
         // Apply unary prefixes before the `as` cast so the IR nests like the
@@ -536,6 +556,11 @@ impl Conv<&Factor> for ir::Expression {
                 Ok(ir::Expression::ArrayLiteral(ret, comptime))
             }
             Factor::CaseExpression(x) => {
+                check_expression_chain(
+                    context,
+                    x.case_expression.case_expression_list.len(),
+                    token,
+                )?;
                 let mut tgt: ir::Expression =
                     Conv::conv(context, x.case_expression.expression.as_ref())?;
                 tgt.eval_comptime(context, None);
@@ -574,6 +599,11 @@ impl Conv<&Factor> for ir::Expression {
                 Ok(ret)
             }
             Factor::SwitchExpression(x) => {
+                check_expression_chain(
+                    context,
+                    x.switch_expression.switch_expression_list.len(),
+                    token,
+                )?;
                 let exp: ir::Expression =
                     Conv::conv(context, x.switch_expression.expression.as_ref())?;
                 let defaul: ir::Expression =
